@@ -162,9 +162,9 @@ func genC14(e *emitter, r *rng, tier string) {
 	// digit slices of NewNumberForTesting / NewFiniteNumber mutated after construction (v3)
 	for i := 0; i < n; i++ {
 		ns := testNumber(r, 1+r.intn(150), r.intn(4), r.rangeInt(-2, 4), 0)
-		desc := "TM" + strings.TrimPrefix(ns.desc, "T")
+		desc := "TM" + strings.TrimPrefix(strings.TrimPrefix(ns.desc, "TE"), "T")
 		emitScriptLine(e, 3, desc, "fwd:0:320;at:0:0;at:0:101;str:0")
-		emitScriptLine(e, 3, "TS"+strings.TrimPrefix(ns.desc, "T"), "fwd:0:320;at:0:0;str:0")
+		emitScriptLine(e, 3, "TS"+strings.TrimPrefix(strings.TrimPrefix(ns.desc, "TE"), "T"), "fwd:0:320;at:0:0;str:0")
 		if ns.length >= 0 {
 			fdesc := "FM:" + strings.Split(ns.desc, ":")[1] + ":" + strings.Split(ns.desc, ":")[3]
 			emitScriptLine(e, 3, fdesc, "fwd:0:320;back:0:320;exact:0")
